@@ -83,15 +83,23 @@ Proof. exact classic_one_at_a_time. Qed.
 Print Assumptions C13_one_at_a_time.
 
 (* delivery, stream: after ANY schedule what main has passed to the caller's result with route code w is a
-   prefix of what sub-suite w emits, event for event (own route code kept), each with a timestamp; all of it
-   when run() has returned normally *)
+   prefix of what sub-suite w emits, event for event (own route code kept), each with a timestamp (the
+   worker's own where it supplied one; one assigned on the way where it left the keyword out or passed
+   timestamp=None explicitly); all of it when run() has returned normally *)
 Theorem C13_delivery_stream : forall i sched w s, let c := sreach i sched in
   nth_error (si_suites i) w = Some s -> w < length (s_workers c) ->
-  (forall x, In x (delivered w (s_log c)) -> snd (fst x) = true)
+  (forall x, In x (delivered w (s_log c)) -> has_ts (snd (fst x)) = true)
   /\ exists rest, map to3 (delivered w (s_log c)) ++ rest = ev_of (emits w (si_base i) s)
        /\ (s_main c = SMDone -> s_raised c = false -> rest = []).
 Proof. exact stream_delivery. Qed.
 Print Assumptions C13_delivery_stream.
+
+(* timestamps: whatever a stream worker emits - keyword left out, timestamp=None passed explicitly, or its own
+   datetime - is queued with a timestamp (its own one kept), so by C13_delivery_stream reaches the caller so *)
+Theorem C13_stamped : forall w base s,
+  Forall (fun e : nat * nat * option nat * tstamp => has_ts (snd e) = true) (ev_of (emits w base s)).
+Proof. exact emits_has_ts. Qed.
+Print Assumptions C13_stamped.
 
 (* broken_runner, classic: the log of a worker alone (caller's result not raising, well-formed reporting
    before the raise) is the expected log of its tests; when run() raised an Exception it is followed by
@@ -110,7 +118,7 @@ Print Assumptions C13_broken_runner.
    broken-runner test (inprogress, fail); nothing more if it was not an Exception *)
 Theorem C13_broken_runner_stream : forall w pre rest, (forall x, In x pre -> x <> SRaise) ->
   emits w false (pre ++ SRaise :: rest)
-    = emits w false pre ++ [QStatus w br_id st_inprogress None; QStatus w br_id st_fail None]
+    = emits w false pre ++ [QStatus w br_id st_inprogress None TNow; QStatus w br_id st_fail None TNow]
   /\ emits w true (pre ++ SRaise :: rest) = emits w true pre.
 Proof. exact stream_broken_runner. Qed.
 Print Assumptions C13_broken_runner_stream.
@@ -172,7 +180,7 @@ Example C13_example :
                ci_mt_raise := None; ci_get_intr := None; ci_main_faults := []; ci_base := false;
                ci_sched := [1; 2; 2; 1; 0; 2] |} in
   let o := model (IClassic ci) in
-  let si := {| si_suites := [[SEv 1 0 None; SEv 1 1 None]; [SEv 2 0 (Some 1); SRaise]]; si_mt_raise := None;
+  let si := {| si_suites := [[SEv 1 0 None TsOmit; SEv 1 1 None TsNone]; [SEv 2 0 (Some 1) (TsAt 7); SRaise]]; si_mt_raise := None;
                si_get_intr := None; si_main_faults := [2]; si_base := false;
                si_sched := [0; 0; 1; 2; 0; 0; 1; 2; 0; 0; 2; 2] |} in
   let o2 := model (IStream si) in
@@ -186,6 +194,7 @@ Example C13_example :
   /\ outcomes_of_log (proj 1 (cg_log (o_trace o))) = [(KSuccess, 1)]
   /\ outcomes_of_log (proj 2 (cg_log (o_trace o))) = [(KError, br_id)]
   /\ (o_raised o2, o_deadlock o2, o_stops o2) = (true, false, [0; 1])
-  /\ delivered 1 (o_trace o2) = [(2, 0, Some 1, true, false); (br_id, 0, None, true, true)]
+  /\ delivered 0 (o_trace o2) = [(1, 0, None, TNow, false)]
+  /\ delivered 1 (o_trace o2) = [(2, 0, Some 1, TOwn 7, false); (br_id, 0, None, TNow, true)]
   /\ (o_raised o3, o_deadlock o3, o_stops o3, main_stops (o_trace o3)) = (true, false, [0; 1], [false; false]).
 Proof. vm_compute. repeat split. Qed.
